@@ -35,3 +35,16 @@ Definition subst_case := (list (nat * tyexp) * tyexp * tyexp)%type.
 Definition subst_case_ok (c : subst_case) : bool :=
   let '(b, e, r) := c in tyexp_eqb (tsubst (sigma_of b) e) r.
 Definition subst_mismatches := mismatches subst_case_ok.
+
+(* the comparison decides equality: a case counted as agreeing is one where tsubst returns exactly the observed expression *)
+Lemma tyexp_eqb_eq : forall a b, tyexp_eqb a b = true -> a = b.
+Proof.
+  fix IH 1. intros [n|s|s args] [m|s'|s' args']; simpl; try discriminate.
+  - intros H. apply Nat.eqb_eq in H. now subst.
+  - intros H. apply String.eqb_eq in H. now subst.
+  - intros H. apply andb_prop in H. destruct H as [Hs Ha]. apply String.eqb_eq in Hs. subst. f_equal.
+    revert args' Ha. induction args as [|x r IHr]; intros [|y q] Ha; try discriminate; [reflexivity|].
+    apply andb_prop in Ha. destruct Ha as [Hx Hr]. f_equal; [now apply IH|now apply IHr].
+Qed.
+Lemma subst_case_ok_sound b e r : subst_case_ok (b, e, r) = true -> tsubst (sigma_of b) e = r.
+Proof. unfold subst_case_ok. apply tyexp_eqb_eq. Qed.
